@@ -709,4 +709,252 @@ theorem variant_decreases {cfg : Cfg} {s s' : State} {l : Label} (I : Inv cfg s)
     have hlen := sumW_set opsLen s.workers k w w' hk
     cases hs <;> simp [variant, opsLen, *] at hlen ⊢ <;> omega
 
+/-! ### no deadlock -/
+
+theorem sumW_eq_zero {f : Worker → Nat} : ∀ {ws : List Worker}, (∀ w ∈ ws, f w = 0) → sumW f ws = 0
+  | [], _ => rfl
+  | a :: r, h => by
+    have h1 := h a (List.mem_cons_self ..)
+    have h2 := sumW_eq_zero (f := f) (ws := r) (fun w hw => h w (List.mem_cons_of_mem _ hw))
+    simp [sumW, h1, h2]
+
+/-- a worker that still has operations can perform the next one -/
+theorem worker_enabled {cfg : Cfg} {s : State} (I : Inv cfg s) {k : Nat} {w : Worker}
+    (hk : s.workers[k]? = some w) (hne : w.ops ≠ []) : ∃ s', step expected cfg s (.work k) = some s' := by
+  obtain ⟨hid, c0, hj, hph⟩ := I.wok k w hk
+  have hs := sumW_le sendC _ k w hk
+  have hr := sumW_le relC _ k w hk
+  have hcnt := I.errsCnt
+  have hle := I.idxLe
+  have hproc := I.proc
+  unfold step
+  simp only [I.noPanic, stepCore, stepWorker, hk, Bool.false_eq_true, if_false]
+  rcases hph with ⟨ho, hf, hc⟩ | ⟨ho, hf, hp, hc⟩ | ⟨ho, hf, hjf⟩ | ⟨ho | ho | ho, _⟩
+  · simp only [ho]; split <;> exact ⟨_, rfl⟩
+  · simp only [ho]; split <;> exact ⟨_, rfl⟩
+  · simp only [ho, hf, if_true]
+    have : s.errs.length < capOf expected cfg expected.errsCap := by
+      simp [sendC, ho] at hs
+      simp [capOf]; omega
+    simp only [this, if_true]; exact ⟨_, rfl⟩
+  · simp only [ho]; split <;> exact ⟨_, rfl⟩
+  · simp only [ho]
+    have : s.processing ≠ 0 := by simp [relC, ho] at hr; omega
+    simp only [this, if_false]; exact ⟨_, rfl⟩
+  · exact absurd ho hne
+
+theorem no_deadlock_inv {cfg : Cfg} {s : State} (I : Inv cfg s) (hnf : s.final = false) :
+    ∃ l s', step expected cfg s l = some s' := by
+  by_cases hall : ∀ w ∈ s.workers, w.ops = []
+  · -- every spawned worker has exited: the dispatcher can move
+    have hrel : sumW relC s.workers = 0 := sumW_eq_zero (fun w hw => by simp [relC, hall w hw])
+    have hdone : sumW doneC s.workers = 0 := sumW_eq_zero (fun w hw => by simp [doneC, hall w hw])
+    have hproc := I.proc
+    have hwgc := I.wgc
+    have hK := conc_pos cfg
+    have hnr : s.dpc ≠ .returned := by
+      intro hd
+      have : s.workers.all (fun w => w.ops.isEmpty) = true := by
+        simp only [List.all_eq_true]; intro w hw; simp [hall w hw]
+      simp [State.final, hd, this] at hnf
+    unfold step
+    simp only [I.noPanic]
+    cases hd : s.dpc with
+    | loop =>
+      by_cases hi : s.idx < cfg.jobs.length
+      · refine ⟨.acquire, ?_⟩
+        have : s.processing < capOf expected cfg .concurrency := by
+          simp [hd] at hproc; simp [capOf]; omega
+        simp [stepCore, stepAcquire, hd, hi, this]
+      · refine ⟨.finalWait, ?_⟩
+        have : s.wg = 0 := by simp [hd] at hwgc; omega
+        simp [stepCore, stepFinalWait, hd, this]; omega
+    | acquired => exact ⟨.add, by simp [stepCore, stepAdd, hd]⟩
+    | added =>
+      have hi := I.idxLt (Or.inr hd)
+      refine ⟨.spawn, ?_⟩
+      have : cfg.jobs[s.idx]? = some cfg.jobs[s.idx] := List.getElem?_eq_getElem hi
+      simp only [stepCore, stepSpawn, hd, this]
+      exact ⟨_, rfl⟩
+    | errRecv e =>
+      refine ⟨.earlyRet, ?_⟩
+      have : s.wg = 0 := by simp [hd] at hwgc; omega
+      simp [stepCore, stepEarlyRet, hd, this]
+    | finalRecv =>
+      refine ⟨.finalRecv, ?_⟩
+      simp only [stepCore, stepFinalRecv, hd, exp_fr]
+      cases s.errs <;> exact ⟨_, rfl⟩
+    | returned => exact absurd hd hnr
+  · -- some worker still has operations
+    have : ∃ w ∈ s.workers, w.ops ≠ [] := by
+      apply Classical.byContradiction
+      intro hcon
+      apply hall
+      intro w hw
+      apply Classical.byContradiction
+      intro hne
+      exact hcon ⟨w, hw, hne⟩
+    obtain ⟨w, hw, hne⟩ := this
+    obtain ⟨k, hk⟩ := List.mem_iff_getElem?.mp hw
+    obtain ⟨s', hs'⟩ := worker_enabled I hk hne
+    exact ⟨.work k, s', hs'⟩
+
+
+/-! ### consequences of the invariant -/
+
+theorem worker_of_lt {cfg : Cfg} {s : State} (I : Inv cfg s) {k : Nat} (hk : k < s.idx) :
+    ∃ w, s.workers[k]? = some w := by
+  have := I.len
+  exact ⟨s.workers[k]'(by omega), List.getElem?_eq_getElem (by omega)⟩
+
+theorem quiescent_of_returned {cfg : Cfg} {s : State} (I : Inv cfg s) (hr : s.ret ≠ none)
+    {w : Worker} (hw : w ∈ s.workers) : w.quiescent = true := by
+  obtain ⟨k, hk⟩ := List.mem_iff_getElem?.mp hw
+  have hd := returned_doneC I hr hk
+  obtain ⟨_, c0, _, hph⟩ := I.wok k w hk
+  rcases hph with ⟨ho, _⟩ | ⟨ho, _⟩ | ⟨ho, _⟩ | ⟨ho | ho | ho, _⟩ <;>
+    simp [doneC, ho] at hd <;> simp [Worker.quiescent, ho]
+
+/-- after `nil`: worker `k` exists, did not fail, and wrote -/
+theorem nil_worker {cfg : Cfg} {s : State} (I : Inv cfg s) (hr : s.ret = some none) {k : Nat}
+    (hk : k < cfg.jobs.length) :
+    cfg.jobFails k = false ∧ k ∈ s.written.map (·.1) := by
+  obtain ⟨hi, hall⟩ := I.retNil hr
+  obtain ⟨w, hw⟩ := worker_of_lt I (by omega : k < s.idx)
+  have hf := hall k w hw
+  have hd := returned_doneC I (by simp [hr]) hw
+  obtain ⟨_, c0, _, hph⟩ := I.wok k w hw
+  have : cfg.jobFails k = false ∧ wroteB w = true := by
+    rcases hph with ⟨ho, _⟩ | ⟨ho, _⟩ | ⟨ho, _⟩ | ⟨ho | ho | ho, hst⟩ <;>
+      simp [doneC, ho] at hd <;>
+      (rcases hst with ⟨hf', _⟩ | ⟨_, hjf, _⟩
+       · rw [hf] at hf'; contradiction
+       · exact ⟨hjf, by simp [wroteB, hf, ho]⟩)
+  exact ⟨this.1, (I.wrIff k w hw).mpr this.2⟩
+
+/-- the content every job is expected to be written with -/
+def target (cfg : Cfg) (k : Nat) : Bytes × Bytes :=
+  match cfg.jobs[k]? with
+  | some (p, c) => (p, cfg.ppf p c)
+  | none => ([], [])
+
+theorem written_eq_target {cfg : Cfg} {s : State} (I : Inv cfg s) :
+    s.written.map (·.2) = (s.written.map (·.1)).map (target cfg) := by
+  rw [List.map_map]
+  apply List.map_congr_left
+  intro x hx
+  obtain ⟨c0, hj, hc⟩ := I.wrOwn x hx
+  simp [target, hj, ← hc]
+
+theorem range_map_target (cfg : Cfg) :
+    (List.range cfg.jobs.length).map (target cfg) = cfg.jobs.map (fun j => (j.1, cfg.ppf j.1 j.2)) := by
+  apply List.ext_getElem
+  · simp
+  · intro i h1 h2
+    simp at h1
+    simp [target, List.getElem?_eq_getElem h1]
+
+theorem written_perm {cfg : Cfg} {s : State} (I : Inv cfg s) (hr : s.ret = some none) :
+    (s.written.map (·.2)).Perm (cfg.jobs.map (fun j => (j.1, cfg.ppf j.1 j.2))) := by
+  rw [written_eq_target I, ← range_map_target]
+  apply List.Perm.map
+  rw [List.perm_ext_iff_of_nodup I.wrNodup List.nodup_range]
+  intro a
+  rw [List.mem_range]
+  constructor
+  · intro ha
+    obtain ⟨x, hx, rfl⟩ := List.mem_map.mp ha
+    have := I.wrLt x hx
+    have := (I.retNil hr).1
+    omega
+  · intro ha
+    exact (nil_worker I hr ha).2
+
+theorem nil_no_failure {cfg : Cfg} {s : State} (I : Inv cfg s) (hr : s.ret = some none) :
+    s.idx = cfg.jobs.length ∧ ∀ k, k < cfg.jobs.length → cfg.jobFails k = false :=
+  ⟨(I.retNil hr).1, fun _ hk => (nil_worker I hr hk).1⟩
+
+/-- the semaphore never holds more than `concurrency` tokens -/
+theorem reach_processing_le {cfg : Cfg} {s : State} (h : Reach expected cfg s) :
+    s.processing ≤ conc expected cfg := by
+  induction h with
+  | init => simp [init]
+  | @step s s' l hr hs ih =>
+    have I := reach_inv hr
+    unfold step at hs
+    simp only [I.noPanic] at hs
+    cases l <;> simp only [stepCore] at hs
+    · unfold stepAcquire at hs
+      repeat' split at hs
+      all_goals (try (simp at hs))
+      all_goals (try (simp at *; done))
+      rename_i _ _ hp
+      subst hs
+      simp [capOf] at hp ⊢; omega
+    · obtain ⟨e, es, hd, hi, he, rfl⟩ := stepRecvErr_inv hs; exact ih
+    · obtain ⟨hd, rfl⟩ := stepAdd_inv hs; exact ih
+    · obtain ⟨p, c, hd, hj, rfl⟩ := stepSpawn_inv hs; exact ih
+    · obtain ⟨e, hd, hw, rfl⟩ := stepEarlyRet_inv hs; exact ih
+    · obtain ⟨hd, hi, hw, rfl⟩ := stepFinalWait_inv hs; exact ih
+    · obtain ⟨hd, h⟩ := stepFinalRecv_inv hs
+      rcases h with ⟨he, rfl⟩ | ⟨e, es, he, rfl⟩ <;> exact ih
+    · obtain ⟨w, w', hk, hw⟩ := stepWorker_inv I hs
+      cases hw <;> simp <;> omega
+
+/-- executions: a sequence of transitions -/
+inductive Path (F : Facts) (cfg : Cfg) : State → List Label → State → Prop
+  | nil (s : State) : Path F cfg s [] s
+  | cons {s s' s'' : State} {l : Label} {ls : List Label} :
+      step F cfg s l = some s' → Path F cfg s' ls s'' → Path F cfg s (l :: ls) s''
+
+theorem path_reach {cfg : Cfg} {s s' : State} {ls : List Label} (hp : Path expected cfg s ls s')
+    (hr : Reach expected cfg s) : Reach expected cfg s' := by
+  induction hp with
+  | nil => exact hr
+  | cons hs _ ih => exact ih (Reach.step hr hs)
+
+theorem path_length {cfg : Cfg} {s s' : State} {ls : List Label} (hp : Path expected cfg s ls s')
+    (hr : Reach expected cfg s) : ls.length + variant cfg s' ≤ variant cfg s := by
+  induction hp with
+  | nil => simp
+  | cons hs _ ih =>
+    have := variant_decreases (reach_inv hr) hs
+    have := ih (Reach.step hr hs)
+    simp; omega
+
+
+theorem nil_written {cfg : Cfg} {s : State} (I : Inv cfg s) (hr : s.ret = some none)
+    {k : Nat} {p c : Bytes} (hj : cfg.jobs[k]? = some (p, c)) : (k, p, cfg.ppf p c) ∈ s.written := by
+  have hk : k < cfg.jobs.length := by
+    rcases Nat.lt_or_ge k cfg.jobs.length with h | h
+    · exact h
+    · rw [List.getElem?_eq_none h] at hj; contradiction
+  obtain ⟨x, hx, hxk⟩ := List.mem_map.mp (nil_worker I hr hk).2
+  obtain ⟨c0, hj', hc⟩ := I.wrOwn x hx
+  obtain ⟨a, b, d⟩ := x
+  simp at hxk hj' hc
+  subst hxk
+  rw [hj] at hj'
+  simp at hj'
+  obtain ⟨rfl, rfl⟩ := hj'
+  rw [hc] at hx
+  exact hx
+
+/-- running a list of labels; used to exhibit reachable states -/
+def runLabels (F : Facts) (cfg : Cfg) : State → List Label → Option State
+  | s, [] => some s
+  | s, l :: ls => match step F cfg s l with
+    | none => none
+    | some s' => runLabels F cfg s' ls
+
+theorem runLabels_reach {F : Facts} {cfg : Cfg} : ∀ {ls : List Label} {s s' : State},
+    Reach F cfg s → runLabels F cfg s ls = some s' → Reach F cfg s'
+  | [], s, s', hr, h => by simp [runLabels] at h; subst h; exact hr
+  | l :: ls, s, s', hr, h => by
+    simp only [runLabels] at h
+    split at h
+    · contradiction
+    · rename_i s1 hs
+      exact runLabels_reach (Reach.step hr hs) h
+
 end AsyncPP
